@@ -15,7 +15,7 @@ tests="not run"; demo_clean="?"; demo_changed="?"
 if $applies; then
   cmake -S "$W" -B "$W/_b" -G Ninja -DCMAKE_BUILD_TYPE=RelWithDebInfo -DBUILD_TESTING=ON -DBUILD_EXAMPLES=ON -DCMAKE_CXX_FLAGS=-Wno-error >/dev/null 2>&1
   if cmake --build "$W/_b" -j16 >"$W/_b/build.log" 2>&1; then
-    tests=$(ctest --test-dir "$W/_b" -j16 2>&1 | grep -E "tests passed|tests failed" | head -1)
+    tests=$(ctest --timeout 300 --test-dir "$W/_b" -j16 2>&1 | grep -E "tests passed|tests failed" | head -1)
   else
     tests="BUILD FAILED"
   fi
